@@ -20,7 +20,9 @@ RULE = ("DIP texts with 4 context nodes and 1-2 constrained nodes (float with un
         "formats that accept / reject the empty text; options and bounds in other units of the same dimension (custom "
         "$units included); array values of lower, equal and higher rank than declared, given in the definition, a modification or a sliced "
         "reference; the constrained node is defined in place, or in a group and imported from a local path ({?defs.*}, {?defs.q}) or from a remote "
-        "$source file ({src?defs.*}), and then modified 0-3 times (also in other units); a fifth of the cases are STAGED parses (DIP(env) continues on the returned environment, 2-3 "
+        "$source file ({src?defs.*}), and then modified 0-3 times (also in other units); a group of bare declarations imported and assigned afterwards - or never (original and copy); property lines interleaved with a @case "
+        "clause nested under the node at their indent (selected or not, closed by indentation, further property lines after it); conditions "
+        "joining 2-4 sub-conditions with || and && in every tree shape and truth pattern (also on bool and str nodes); a fifth of the cases are STAGED parses (DIP(env) continues on the returned environment, 2-3 "
         "stages) whose later stages modify the node, the node its !condition refers to ({?} < {?k}) or an unrelated node, judged after every stage; "
         "real DIP.parse accepts or raises; the values every node "
         "ends with are computed independently by the generator and the Lean specification `holds` decides them; on acceptance the returned "
@@ -50,8 +52,9 @@ EXPLANATION = ("theorems: the validation loop accepts a node list iff every node
                "conversion to the node's unit")
 
 LUNITS = ["m", "cm", "km", "mm"]
-CONTEXT = ["k float = 3 m", "n int = 4", "w str = 'ab'", "j int = 2 m"]
-CONTEXT_ROWS = [["k", "float", 3.0, "m"], ["n", "int", 4, None], ["w", "str", "ab", None], ["j", "int", 2, "m"]]
+CONTEXT = ["k float = 3 m", "n int = 4", "w str = 'ab'", "j int = 2 m", "tt bool = true", "ff bool = false"]
+CONTEXT_ROWS = [["k", "float", 3.0, "m"], ["n", "int", 4, None], ["w", "str", "ab", None], ["j", "int", 2, "m"],
+                ["tt", "bool", True, None], ["ff", "bool", False, None]]
 KMAP = {"m": 1.0, "cm": 0.01, "km": 1000.0, "mm": 0.001, "[x]": 2.0}
 WORDS = ["ab", "cd", "ab1", "x", "Tina", "abc", ""]
 FORMATS = ["[a-z]+", "[a-z]+$", "[a-c]+[0-9]?$", "T", ".{2}$", "[A-Z][a-z]*$", "[a-zA-Z0-9]+$", "^[a-z]*$", "^[a-zA-Z_-]+$", "[a-z]*[0-9]*$"]
@@ -155,10 +158,24 @@ def multi_cond(rng, ref, unit, units, partner_node):
         if rng.random() < 0.25:
             a, b = b, a
         parts.append(["bin", op, a, b])
-    e = parts[0]
-    for p in parts[1:]:
-        e = ["bin", rng.choice(["and", "and", "or"]), e, p]
-    return c18.wf_fix(e, c18.LOG_LVL)
+    return c18.wf_fix(join_logic(rng, parts), c18.LOG_LVL)
+
+
+def join_logic(rng, parts):
+    """Join sub-conditions with && and || in a random tree shape: a || b && c, a && b || c, (a || b) && c, ..."""
+    parts = list(parts)
+    while len(parts) > 1:
+        i = rng.randrange(len(parts) - 1)
+        parts[i:i + 2] = [["bin", rng.choice(["and", "or"]), parts[i], parts[i + 1]]]
+    return parts[0]
+
+
+def mix_bool_cond(rng, imported):
+    """|| and && over the own truth value and other booleans, every truth pattern"""
+    atoms = [["lit", "{?}"], ["pre", "not", ["lit", "{?}"]], ["lit", "true"], ["lit", "false"]]
+    if not imported:
+        atoms += [["lit", "{?tt}"], ["lit", "{?ff}"], ["pre", "not", ["lit", "{?ff}"]]]
+    return c18.wf_fix(join_logic(rng, [rng.choice(atoms) for _ in range(rng.choice([2, 3, 3, 4]))]), c18.LOG_LVL)
 
 
 def gen_target(rng, name, custom, imported):
@@ -168,6 +185,7 @@ def gen_target(rng, name, custom, imported):
     t.name = name
     t.kind = rng.choice(["float", "float", "int", "int", "str", "str", "bool", "array", "array"] + ([] if imported else ["fn", "fn"]))
     t.fn = None
+    t.decl = t.rhs0 = None
     t.lines, t.mods = [], []          # mods: right-hand sides "<value> <unit>"
     t.mod_vals, t.mod_shapes = [], []  # the value / shape the node has after each modification
     t.options, t.cond_ast, t.fmt, t.dims = [], None, None, []
@@ -182,6 +200,7 @@ def gen_target(rng, name, custom, imported):
         v = float(rng.choice(c18.NUMS))
         t.declared = (not imported) and rng.random() < 0.2
         t.lines.append("%s float %s" % (name, t.unit) if t.declared else "%s float = %s %s" % (name, fnum(v), t.unit))
+        t.decl, t.rhs0 = "%s float %s" % (name, t.unit), "%s %s" % (fnum(v), t.unit)
         t.initial = t.final = None if t.declared else v
         nm = rng.choice([0, 1, 1, 2]) if (t.declared or imported) else rng.choice([0, 0, 1, 2, 3])
         for _ in range(nm):
@@ -232,6 +251,7 @@ def gen_target(rng, name, custom, imported):
         us = " " + t.unit if t.unit else ""
         v = rng.randint(1, 9)
         t.lines.append("%s int = %d%s" % (name, v, us))
+        t.decl, t.rhs0 = "%s int%s" % (name, us), "%d%s" % (v, us)
         t.initial = t.final = v
         for _ in range(rng.choice([0, 0, 1, 2])):
             v2 = max(1, v + rng.choice([0, 1, -1, 2])) if imported else rng.randint(1, 9)
@@ -280,13 +300,14 @@ def gen_target(rng, name, custom, imported):
         how = rng.random()
         if how < 0.12 and not imported:
             # the value arrives by injection from another node
-            t.extra_ctx.append("label str = %s" % sq(v))
-            t.lines.append("%s str = {?label}" % name)
+            t.extra_ctx.append("label_%s str = %s" % (name, sq(v)))
+            t.lines.append("%s str = {?label_%s}" % (name, name))
         elif how < 0.2 and not imported:
             v = None
             t.lines.append("%s str = none" % name)
         else:
             t.lines.append("%s str = %s" % (name, sq(v)))
+            t.decl, t.rhs0 = "%s str" % name, sq(v)
         t.initial = t.final = v
         for _ in range(rng.choice([0, 0, 1, 2])):
             v2 = rng.choice(WORDS + ([None] if not imported else []))
@@ -313,9 +334,13 @@ def gen_target(rng, name, custom, imported):
             if rng.random() < 0.3:
                 a, b = b, a
             t.cond_ast = ["bin", "eq" if imported else rng.choice(["eq", "ne"]), a, b]
+            if not imported and rng.random() < 0.4:
+                more = [["bin", rng.choice(["eq", "ne"]), ["lit", "{?}"], ["lit", rng.choice([x for x in WORDS if x])]] for _ in range(2)]
+                t.cond_ast = c18.wf_fix(join_logic(rng, [t.cond_ast] + more), c18.LOG_LVL)
     elif t.kind == "bool":
         v = rng.random() < 0.5
         t.lines.append("%s bool = %s" % (name, "true" if v else "false"))
+        t.decl, t.rhs0 = "%s bool" % name, "true" if v else "false"
         t.initial = t.final = v
         if rng.random() < 0.5:
             v2 = rng.random() < 0.5
@@ -325,6 +350,8 @@ def gen_target(rng, name, custom, imported):
         if rng.random() < 0.7:
             if imported:
                 t.cond_ast = ["lit", "{?}"] if v else ["pre", "not", ["lit", "{?}"]]
+            elif rng.random() < 0.6:
+                t.cond_ast = mix_bool_cond(rng, imported)
             else:
                 t.cond_ast = rng.choice([["lit", "{?}"], ["pre", "not", ["lit", "{?}"]],
                                          ["bin", "eq", ["lit", "{?}"], ["lit", rng.choice(["true", "false"])]]])
@@ -435,14 +462,14 @@ def gen_target(rng, name, custom, imported):
                 parts.append("0")
             import numpy as np
             arr = np.array(src)[tuple([slice(0, n) for n in shape] + ([0] if len(src_shape) > len(shape) else []))]
-            t.extra_ctx.append("srcarr float[%s] = %s m" % (",".join(str(n) for n in src_shape), lit_list(src)))
-            t.lines.append("%s float[%s] = {?srcarr}[%s]" % (name, ",".join(txt), ",".join(parts)))
+            t.extra_ctx.append("srcarr_%s float[%s] = %s m" % (name, ",".join(str(n) for n in src_shape), lit_list(src)))
+            t.lines.append("%s float[%s] = {?srcarr_%s}[%s]" % (name, ",".join(txt), name, ",".join(parts)))
             t.initial = t.final = arr.tolist()
             t.shape0 = t.shape = list(shape)
         elif how < 0.3 and et == "str" and rank == 1:
             # sliced reference to a scalar text: the slice of a text is a text, not an array
-            t.extra_ctx.append("srctext str = abcdef")
-            t.lines.append("%s str[%s] = {?srctext}[0:3]" % (name, ",".join(txt)))
+            t.extra_ctx.append("srctext_%s str = abcdef" % name)
+            t.lines.append("%s str[%s] = {?srctext_%s}[0:3]" % (name, ",".join(txt), name))
             t.initial = t.final = "abc"
             t.shape0 = t.shape = shape = []
         else:
@@ -458,7 +485,32 @@ def gen_target(rng, name, custom, imported):
             t.final = val2
             t.mod_vals.append(val2)
             t.mod_shapes.append(list(shape2))
+    interleave_case(rng, t, imported)
     return t
+
+
+def interleave_case(rng, t, imported):
+    """A @case clause nested under the node at the indent of its property lines, closed by indentation and followed by
+    further property lines: a selected clause contributes its lines, an unselected one nothing, and the lines after it
+    belong to the node whatever the clause selects."""
+    if rng.random() > 0.3 or len(t.lines) < 1 or t.fn or t.extra_ctx:
+        return
+    cond = rng.choice(["false", "false", "true"] + ([] if imported else ["{?tt}", "{?ff}"]))
+    selected = cond in ("true", "{?tt}")
+    kind = t.kind
+    ref = t.final if t.final is not None else t.initial
+    if kind == "float" and ref is not None:
+        extra, opt = "= %s %s" % (fnum(ref * 3), t.unit), ["num", ref * 3, t.unit]
+    elif kind == "int" and ref is not None:
+        extra, opt = "= %d%s" % (ref + 7, " " + t.unit if t.unit else ""), ["num", float(ref + 7), t.unit]
+    elif kind == "str":
+        extra, opt = "= zzz", ["str", "zzz"]
+    else:
+        extra, opt = '!description "only in extended mode"', None
+    pos = rng.randint(1, len(t.lines))
+    t.lines[pos:pos] = ["  @case %s" % cond, "    " + extra]
+    if selected and opt is not None:
+        t.options = t.options + [opt]
 
 
 def deep_close(a, b):
@@ -647,13 +699,23 @@ def staged_stream(ctx, rng, tabs, drv18, count, DIP, unit_rows):
 def _run(ctx, rng, tabs, drv18, count, tmpdir, DIP, Format):
     cases = []
     for i in range(count):
-        mode = rng.choice(["plain", "plain", "plain", "plain", "local-group", "local-node", "remote"])
+        mode = rng.choice(["plain", "plain", "plain", "plain", "local-group", "local-node", "remote", "local-decl"])
         custom = mode != "remote" and rng.random() < 0.3
         ctxt = ["$unit x = 2 m"] if custom else []
         ctxt += CONTEXT
         targets = [gen_target(rng, "q", custom, mode != "plain")]
         if rng.random() < 0.3:
             targets.append(gen_target(rng, "r", custom, mode != "plain"))
+        if mode == "local-decl":
+            # a group of bare declarations is imported; original and copy get their values afterwards - or never
+            targets = []
+            while not targets:
+                t = gen_target(rng, "q", custom, True)
+                if t.decl and not t.extra_ctx and not t.fn and t.kind in ("float", "int", "str", "bool"):
+                    t.lines[0] = t.decl
+                    t.declared = True
+                    t.a_defs, t.a_run = rng.random() < 0.85, rng.random() < 0.7
+                    targets = [t]
         if mode != "plain" and any(t.extra_ctx for t in targets):
             mode = "plain"      # sliced references stay local
             targets = [gen_target(rng, "q", custom, False)]
@@ -675,6 +737,8 @@ def _run(ctx, rng, tabs, drv18, count, tmpdir, DIP, Format):
     def records(mode, t):
         if mode == "plain":
             return [(t, t.name, t.final, t.shape)]
+        if mode == "local-decl":
+            return [(t, "defs." + t.name, t.initial if t.a_defs else None, []), (t, "run." + t.name, t.final if t.a_run else None, [])]
         return [(t, "defs." + t.name, t.initial, t.shape0), (t, "run." + t.name, t.final, t.shape)]
 
     # round 1: conditions through the C18 model/spec with {?} bound to the node
@@ -725,6 +789,10 @@ def _run(ctx, rng, tabs, drv18, count, tmpdir, DIP, Format):
                 with open(path, "w") as f:
                     f.write("\n".join(group) + "\n")
                 lines = ["$source src = %s" % path] + ctxt + ["run", "  {src?defs.*}"] + mods
+            elif mode == "local-decl":
+                t = targets[0]
+                lines = ctxt + group + ["run", "  {?defs.*}"] + (["defs.%s = %s" % (t.name, t.rhs0)] if t.a_defs else []) + \
+                    ((["run.%s = %s" % (t.name, t.rhs0)] + mods) if t.a_run else [])
             elif mode == "local-group":
                 lines = ctxt + group + ["run", "  {?defs.*}"] + mods
             else:
@@ -815,8 +883,7 @@ def _run(ctx, rng, tabs, drv18, count, tmpdir, DIP, Format):
         if imp:
             # soundness oracle on the returned data: the values judged are the values returned
             for t in targets:
-                for _, full, val, _ in ([(t, t.name, t.final, None)] if mode == "plain" else
-                                        [(t, "run." + t.name, t.final, None)] + ([(t, "defs." + t.name, t.initial, None)] if mode != "remote" else [])):
+                for _, full, val, _ in [r_ for r_ in records(mode, t) if not (mode == "remote" and r_[1].startswith("defs."))]:
                     got = data.get(full)
                     if t.kind == "float":
                         ok = isinstance(got, tuple) and c18.close(got[0], val, None) and got[1] == t.unit
